@@ -17,7 +17,12 @@ use crate::core::*;
 use crate::execs::*;
 
 /// (text, detached)
-pub const SNIPPETS: [(&str, bool); 57] = [
+pub const SNIPPETS: [(&str, bool); 60] = [
+    // variables of the user (or documented as carried over) whose names begin like the ones bash owns
+    ("BASH_TOOLS_DIR='/opt/my tools'; export BASH_ENV=/nonexistent/prelude.sh", false),
+    // functions and aliases named like the builtins the restored state is written in
+    ("declare() { echo \"my declare $*\"; }", false),
+    ("alias shopt='echo nope'", false),
     // things the state carrier itself depends on: external programs found through PATH, names of commands it calls
     ("PATH=/nonexistent", false),
     ("grep() { echo mock-grep; }", false),
@@ -88,7 +93,7 @@ pub const SNIPPETS: [(&str, bool); 57] = [
     ("Y=\"${Y:-}+\"; export Y", false),
 ];
 
-pub const PROBE: &str = r#"declare -p X Y Z arr m n IFS TMPFILE LANG_CODE code HOME OLDPWD R T ref L 2>/dev/null || true
+pub const PROBE: &str = r#"declare -p X Y Z arr m n IFS TMPFILE LANG_CODE code HOME OLDPWD R T ref L BASH_TOOLS_DIR BASH_ENV 2>/dev/null || true
 declare -f af || true
 af 2>/dev/null || true
 declare -f f || true
@@ -142,6 +147,12 @@ fn errexit_on(history: &[usize]) -> bool {
 }
 
 fn in_model(history: &[usize], next: usize) -> bool {
+    // with `shopt` aliased away the snippet that needs extglob for its own second line is a syntax error, which ends a
+    // single session for good (scrut starts a new shell for the next test case): nothing to compare
+    let shopt_aliased = history.iter().any(|h| !SNIPPETS[*h].1 && SNIPPETS[*h].0.starts_with("alias shopt="));
+    if shopt_aliased && SNIPPETS[next].0.starts_with("shopt -s extglob\n") {
+        return false;
+    }
     !(errexit_on(history) && MAY_FAIL.contains(&SNIPPETS[next].0))
 }
 
@@ -196,8 +207,9 @@ fn reference_run(history: &[usize]) -> Result<String, String> {
         if SNIPPETS[*h].1 {
             continue; // detached test cases leave no state behind
         }
-        script.push_str(SNIPPETS[*h].0);
-        script.push('\n');
+        // (what a snippet prints is not state: only the probe's output is compared)
+        // (not a group: a snippet may switch an option on that its own later lines need to be parsed)
+        script.push_str(&format!("exec 8>&1 9>&2 >/dev/null 2>&1\n{}\nexec >&8 2>&9 8>&- 9>&-\n", SNIPPETS[*h].0));
     }
     script.push_str(PROBE);
     script.push('\n');
